@@ -1,17 +1,22 @@
-\* quick: 2 clients x 1 message, pool of 2, ideal pool (Dev = {}), message handler echoes (unicast)
+\* quick 1/4: one client with every feature (2 messages, ping, heartbeat, chat-style replies, external sender), pool of 2, repaired pool (Dev = {}): every property incl. the liveness ShutdownEndsRun
 CONSTANTS
-  Clients <- C2
-  MaxMsgs = 1
-  MaxPings = 0
-  Workers <- W2
-  Heartbeat = FALSE
-  Reply <- ReplyUni
-  ExtScript <- ExtNone
+  c1 = c1
+  c2 = c2
+  c3 = c3
+  w1 = w1
+  w2 = w2
+  w3 = w3
+  Clients <- CS1
+  MaxMsgs = 2
+  MaxPings = 1
+  Workers <- WS2
+  Heartbeat = TRUE
+  Reply <- ReplyChat
+  ExtScript <- ExtBoth
   Mode = "free"
   ShutdownMode = "any"
   Dev = {}
-INIT Init
-NEXT Next
-INVARIANTS TypeOK CurInStreams DispatchInvs InvocationInvs DeliveryInvs
-\* PROPERTY ShutdownEndsRun
+SPECIFICATION Spec
+INVARIANTS TypeOK CurInStreams DispatchInvs InvocationInvs DeliveryInvs QuiescentComplete
+PROPERTY ShutdownEndsRun
 CHECK_DEADLOCK FALSE
